@@ -71,7 +71,7 @@ Definition src2_authn_response (issuer_ext : pyval -> pyval) (setup_ext : pyval 
    | BErr => PErr
    end)))).
 
-(* saml2/sigver.py:SecurityContext.decrypt, lines 1344-1365 *)
+(* saml2/sigver.py:SecurityContext.decrypt, lines 1349-1370 *)
 Definition src2_decrypt (crypto_decrypt : pyval -> pyval -> pyval) (v_self : pyval) (v_enctext : pyval) (v_key_file : pyval) : pyval :=
   let v_key_files := PErr in
   let v_dectext := PErr in
@@ -285,7 +285,7 @@ Definition src2_assertion (check_sig3 : pyval -> pyval -> pyval -> pyval) (class
    | BErr => PErr
    end)).
 
-(* saml2/sigver.py:pre_encrypt_assertion, lines 1915-1930 *)
+(* saml2/sigver.py:pre_encrypt_assertion, lines 1920-1935 *)
 Definition src2_pre_encrypt_assertion (mk_ea : pyval) (add_el : pyval -> pyval -> pyval) (add_els : pyval -> pyval -> pyval) (v_response : pyval) : pyval :=
   let v_assertion := PErr in
   (py_bind (p2_attr v_response "assertion") (fun v_assertion =>
@@ -306,7 +306,7 @@ Definition src2_pre_encrypt_assertion (mk_ea : pyval) (add_el : pyval -> pyval -
    | BErr => PErr
    end))))))))).
 
-(* saml2/sigver.py:CryptoBackendXmlSec1.encrypt_assertion, lines 724-765 *)
+(* saml2/sigver.py:CryptoBackendXmlSec1.encrypt_assertion, lines 729-770 *)
 Definition src2_xmlsec_encrypt_assertion (pre_enc : pyval -> pyval) (make_temp_ext : pyval -> pyval) (to_str : pyval -> pyval) (run_xmlsec : pyval -> pyval -> pyval) (decode_ext : pyval -> pyval) (v_self : pyval) (v_statement : pyval) (v_enc_key : pyval) (v_template : pyval) (v_key_type : pyval) (v_node_xpath : pyval) (v_node_id : pyval) : pyval :=
   let v_tmp := PErr in
   let v_tmp2 := PErr in
